@@ -249,4 +249,103 @@ Proof.
   pose proof (closed_once B s' None h K') as Le.
   rewrite close_count_closes in *. unfold LifeProofs.closed in Hc. apply (count_occ_In Nat.eq_dec) in Hc. lia.
 Qed.
+(** ---- Tattach ---- *)
+Lemma shape_set_mode r m s : shape s (set_ref B r (fr_with_mode (gref s r) m) s).
+Proof.
+  unfold shape, LifeProofs.len. rewrite len_set_ref. split; [reflexivity|]. split; [lia|]. split; [|split; intros; lia].
+  intros q Hq. destruct (Nat.eq_dec r q) as [<-|N].
+  - rewrite gref_set_same by auto. cbn. auto.
+  - rewrite gref_set_other by auto. auto.
+Qed.
+
+(** a failing Tattach: Attach fails / GetAttr of the root fails / the walk fails at any component *)
+Lemma attach_fail_shape c fid names s :
+  fst (fst (do_attach B bstep c fid names s)) <> 0 ->
+  shape s (snd (do_attach B bstep c fid names s)).
+Proof.
+  unfold do_attach.
+  pose proof (shape_sc _ _ (sc_bcall B bstep (BAttach (s_nexth B s)) s)) as S1.
+  destruct (bcall_ B bstep (BAttach (s_nexth B s)) s) as [a s1]. cbn [snd] in S1.
+  set (x := mkref (s_nexth B s) 0 false 0 MNone 0 None None XNone).
+  assert (Main : let '(root, s2) := new_ref B x (take_handle B s1) in
+     let '(a2, s3) := bcall_ B bstep (BGetAttr (s_nexth B s)) s2 in
+     forall rs, rs = (match a2 with
+      | AErr e => (rerr e, release B bstep root s3)
+      | AOk m ino | ABadQ m ino =>
+          let s4 := set_ref B root (fr_with_mode (gref s3 root) m) s3 in
+          match names with
+          | [] => (rok ino, release B bstep root (insert_fid B bstep c fid root s4))
+          | _ =>
+              let '(d0, s5) := do_walk B bstep root names false s4 in
+              match d0 with
+              | DFail e => (rerr e, release B bstep root s5)
+              | DOk nr => (rok ino, release B bstep root (release B bstep nr (insert_fid B bstep c fid nr s5)))
+              end
+          end
+      end) -> fst (fst rs) <> 0 -> shape s (snd rs)).
+  { pose proof (shape_sc _ _ (sc_take_handle B s1)) as St.
+    assert (Sn : shape (take_handle B s1) (snd (new_ref B x (take_handle B s1)))) by (apply shape_new_ref; [intros p Hp; discriminate | reflexivity]).
+    destruct (new_ref_facts B x (take_handle B s1)) as (E2 & L2 & Gn & _).
+    destruct (new_ref B x (take_handle B s1)) as [root s2]. cbn [fst snd] in *.
+    pose proof (shape_sc _ _ (sc_bcall B bstep (BGetAttr (s_nexth B s)) s2)) as S3.
+    destruct (bcall_ B bstep (BGetAttr (s_nexth B s)) s2) as [a2 s3]. cbn [snd] in S3.
+    pose proof (shape_trans _ _ _ S1 (shape_trans _ _ _ St (shape_trans _ _ _ Sn S3))) as S03.
+    assert (Hr2 : root < len s2) by (unfold LifeProofs.len; rewrite L2, E2; lia).
+    assert (Walk : forall m, let s4 := set_ref B root (fr_with_mode (gref s3 root) m) s3 in
+        forall rs ino, rs = (match names with
+          | [] => (rok ino, release B bstep root (insert_fid B bstep c fid root s4))
+          | _ =>
+              let '(d0, s5) := do_walk B bstep root names false s4 in
+              match d0 with
+              | DFail e => (rerr e, release B bstep root s5)
+              | DOk nr => (rok ino, release B bstep root (release B bstep nr (insert_fid B bstep c fid nr s5)))
+              end
+          end) -> fst (fst rs) <> 0 -> shape s (snd rs)).
+    { intros m s4 rs ino -> Hne.
+      pose proof (shape_set_mode root m s3) as S4. fold s4 in S4.
+      pose proof (shape_trans _ _ _ S3 S4) as S24.
+      assert (Hr4 : root < len s4) by (pose proof (len_shape _ _ S24); lia).
+      assert (P4 : forall p, fr_parent (gref s4 root) = Some p -> p < len s4).
+      { intros p Hp. destruct S24 as (_ & _ & O & _). destruct (O root Hr2) as (EP & _). rewrite EP, E2, Gn in Hp. discriminate. }
+      destruct names as [|nm rest]; [exfalso; apply Hne; reflexivity|].
+      pose proof (do_walk_shape root (nm :: rest) false s4 Hr4 P4) as S5.
+      destruct (do_walk B bstep root (nm :: rest) false s4) as [d0 s5]. cbn [snd] in S5.
+      destruct d0 as [e|nr]; [|exfalso; apply Hne; reflexivity]. cbn [snd].
+      eapply shape_trans; [exact S03|]. eapply shape_trans; [exact S4|]. eapply shape_trans; [exact S5 | apply shape_release]. }
+    intros rs -> Hne. destruct a2 as [m ino|e|m ino].
+    - eapply Walk; [reflexivity | exact Hne].
+    - cbn [snd]. eapply shape_trans; [exact S03 | apply shape_release].
+    - eapply Walk; [reflexivity | exact Hne]. }
+  intros Hne.
+  destruct (new_ref B x (take_handle B s1)) as [root s2]. destruct (bcall_ B bstep (BGetAttr (s_nexth B s)) s2) as [a2 s3].
+  destruct a as [m ino|e|m ino]; [apply (Main _ eq_refl Hne) | exact S1 | apply (Main _ eq_refl Hne)].
+Qed.
+
+(** C05_error_paths for Tattach: Attach error, GetAttr error on the new root, walk failure at any
+    component: every handle the backend returned during the failing request - the root File included -
+    is closed exactly once when the error is answered.  (The model's GetAttr answers always carry a
+    Mode, so the Go branch "!valid.Mode" has no counterpart; it takes the same exit as a GetAttr error.) *)
+Theorem attach_error_closes_all c fid names s :
+  RefInv B s -> KInv B s None -> wf_log (s_log B s) -> s_held B s = [] ->
+  let r := do_attach B bstep c fid names s in
+  fst (fst r) <> 0 -> s_panic B (snd r) = false ->
+  forall h, s_nexth B s <= h -> h < s_nexth B (snd r) -> close_count h (s_log B (snd r)) = 1.
+Proof.
+  intros I K W EH. cbv zeta. intros Herr Hp h Hlo Hhi.
+  pose proof (attach_fail_shape c fid names s Herr) as Sh.
+  destruct (LifeStep.ok_attach B bstep c fid names s [] (conj I (conj K W)) ltac:(intros x [])) as ((I' & K' & W') & (_ & _ & Eq)).
+  set (s' := snd (do_attach B bstep c fid names s)) in *.
+  assert (EH' : s_held B s' = []).
+  { apply cnt_zero_nil. intros q. specialize (Eq Hp q). unfold RefStep.hc in Eq. rewrite EH in Eq. cbn in Eq. rewrite !cnt_nil in Eq. lia. }
+  assert (Dead : forall q, len s <= q -> q < len s' -> live (gref s' q) = false).
+  { apply (new_dead s s' I K I' Sh). intros x Hx. rewrite EH' in Hx. contradiction. }
+  assert (Hc : closed B s' h).
+  { destruct (K6 B s' None K' h Hhi ltac:(discriminate)) as [(r & Hr & Or & Ef)|Hc]; auto.
+    destruct (Nat.lt_ge_cases r (len s)) as [Old|New].
+    - destruct Sh as (_ & _ & O & _). destruct (O r Old) as (_ & _ & EF). rewrite EF in Ef.
+      destruct (K1 B s None K r Old) as (Lt & _). lia.
+    - rewrite <- Ef. apply (K7 B s' None K' r Hr Or). apply Dead; auto. }
+  pose proof (closed_once B s' None h K') as Le.
+  rewrite close_count_closes in *. unfold LifeProofs.closed in Hc. apply (count_occ_In Nat.eq_dec) in Hc. lia.
+Qed.
 End Err.
